@@ -167,7 +167,13 @@ def decorate(gen, cls, val, p_send=0.5, p_unknown=0.5, depth=0):
             fields.append(x)
     send = [fd.tag is not None and r.random() < p_send for fd in descs]
     unknown = []
-    if cls.__flexible__ and r.random() < p_unknown:
+    if p_unknown == "zero-last":
+        # deterministic: every flexible entity, at every level, ends its tagged section with a ZERO-SIZE unknown field
+        # carrying the largest tag number (the last bytes of the entity are "tag, size 0" with nothing behind them)
+        if cls.__flexible__:
+            unknown.append((2**31 - 1, b""))
+            gen.count("unknown_tag_zero_last")
+    elif cls.__flexible__ and r.random() < p_unknown:
         known = {fd.tag for fd in descs if fd.tag is not None}
         for _ in range(r.choice([1, 1, 2, 3])):
             t = r.choice([0, 1, 2, 3, 5, 7, 100, 127, 128, 300, 2**31 - 1, r.randrange(0, 2**31)])
